@@ -49,11 +49,14 @@ def _worker(args):
     pid, cfg, tier, seed, excl = args
     t0 = time.time()
     res = dict(cfg=cfg, stats={}, violation=None, samples=[], inconclusive=None, error=None,
-               path_samples=[], notes={})
+               path_samples=[], notes={}, vc_dump=[])
     try:
         H = importlib.import_module("harness." + pid)
         eng = Engine(seed=seed, **getattr(H, "ENGINE_OPTS", {}).get(tier, {}))
         CUR.E = eng
+        nd = getattr(H, "DUMP_VCS", {}).get(tier, 0)
+        if nd:
+            eng.vc_dump, eng.vc_dump_max = [], nd
         ctx = Ctx(eng, cfg, tier, seed, excl)
         try:
             H.explore(cfg, eng, ctx)
@@ -66,6 +69,7 @@ def _worker(args):
         res["samples"] = ctx.samples
         res["path_samples"] = ctx.path_samples
         res["notes"] = ctx.notes
+        res["vc_dump"] = eng.vc_dump or []
         if eng.vc_unknown or eng.branch_unknown:
             res["inconclusive"] = (res["inconclusive"] or "") + " unknown vcs=%d branches=%d" % (eng.vc_unknown, eng.branch_unknown)
     except BaseException as ex:      # harness error: never a verdict
@@ -266,6 +270,19 @@ def run_check(pid, tier, seed):
         if exit_code == 0:
             exit_code = 2
 
+    # --- second engine / second solver (section 2.8 item 4)
+    cross = {}
+    if hasattr(H, "cross_check"):
+        try:
+            dumps = [t for r in results for t in r.get("vc_dump", [])]
+            cross = H.cross_check(tier, bool(real_violations), dumps)
+        except Exception as ex:
+            cross = {"error": "%s: %s" % (type(ex).__name__, ex), "disagree": True}
+        if cross.get("disagree"):
+            print("ENGINE-DISAGREEMENT: %s" % json.dumps(cross, default=str)[:600])
+            if exit_code == 0:
+                exit_code = 2
+
     # --- evidence
     tot = lambda k: sum(r["stats"].get(k, 0) for r in results)
     path_samples = [s for r in results for s in r["path_samples"]][:6]
@@ -310,6 +327,7 @@ def run_check(pid, tier, seed):
                        "wall_s": round(tot("solver_s"), 2), "stage2_queries": tot("stage2")},
             "notes": notes,
             "known_findings_excluded": excl,
+            "cross_checks": cross,
             "engine_mismatches": len(mismatches) + len(sample_fail),
             "exhaustive": (not inconc and not errors and tot("vc_unknown") == 0),
         },
